@@ -11,6 +11,7 @@ pub mod fonts_table;
 pub mod rec;
 pub mod rng;
 pub mod shapes;
+pub mod stackprobe;
 pub mod stacks;
 pub mod targets;
 pub mod util;
